@@ -35,6 +35,12 @@ def count_form(e: ast.expr, env: dict[str, tuple]) -> Optional[tuple]:
         a, b = count_form(r[1], env), count_form(r[2], env)
         if unparse(r[0]) == "0" and a and b and a[0] == "sym" and b[0] == "sym":
             return ("ceil", a[1], b[1])
+        # range(s, s + N, P) has ceil(N/P) elements whatever the start s is
+        if isinstance(r[1], ast.BinOp) and isinstance(r[1].op, ast.Add) and b and b[0] == "sym":
+            for s_, n_ in ((r[1].left, r[1].right), (r[1].right, r[1].left)):
+                n_f = count_form(n_, env)
+                if unparse(s_) == unparse(r[0]) and n_f and n_f[0] == "sym":
+                    return ("ceil", n_f[1], b[1])
     if isinstance(e, ast.BinOp) and isinstance(e.op, ast.FloorDiv):
         a, b = count_form(e.left, env), count_form(e.right, env)
         if a and b and b[0] == "sym":
@@ -368,7 +374,7 @@ def numbering_rule(prog: Program, rep: Report) -> None:
     """filename_generator: stem_%0{w}d starting at the parsed number (or 0, width 3), +1 per file.
     Decided on sequentially expanded paths, so local names and the branch order do not matter."""
     rule = "R07.4"
-    fi = prog.func("out_netcdf.filename_generator")
+    fi = prog.lview("out_netcdf.filename_generator")
     from ..nf import NF
 
     # the search pattern
